@@ -61,6 +61,7 @@ static void execute(Mode& md, Obs& ob) {
       ops[j] = L;
     }
   }
+  if (ob.eo & 1) a.add_encoding_options(EncodingOptions::kOptimizeForSize); else a.clear_encoding_options(EncodingOptions::kOptimizeForSize);
   a.set_inst_options(inst_options(ob));
   if (ob.k) a.set_extra_reg(x86::k(ob.k)); else a.reset_extra_reg();
   size_t before = a.offset();
@@ -106,6 +107,7 @@ int main(int argc, char** argv) {
   std::string cmd = argv[1];
   vj::Rng rng(vj::env_seed());
   g_gen.rng = &rng;
+  g_gen.cross = true;
   Mode m32, m64; m32.init(32); m64.init(64);
   if (cmd == "replay") {
     FILE* out = fopen(argv[3], "w");
